@@ -153,6 +153,10 @@ def run_case(case):
     for i in chosen:
         d = base[i].shape
         rows[i] = np.asarray(zoo.draw(rng, leaves[i], sshape + d), dtype=float).reshape(sshape + d)
+        if leaves[i] == "real" and int(np.prod(sshape)) >= 2 and rng.random() < 0.2:
+            # one sample sits exactly on 0 (a special-cased value of several densities), the others do not
+            rows[i].reshape((-1,) + d)[int(rng.integers(int(np.prod(sshape))))] = 0.0
+            C["rows_with_exact_zero"] = 1
     batched_spec = with_values(g["spec"], {i: rows[i].tolist() for i in chosen})
     detail = {"case": case, "batched": chosen}
     try:
